@@ -7,6 +7,7 @@ import (
 	"strings"
 
 	"verif/cfg"
+	"verif/cli"
 	"verif/gen"
 	"verif/probe"
 	"verif/ref"
@@ -111,6 +112,28 @@ func runUnits(c *Ctx, lab *probe.Lab, units []*probe.Unit, race bool) error {
 	if err := lab.Compile(units); err != nil {
 		return err
 	}
+	// every fifth unit once more at the language version the pinned runtime declares for itself
+	if lang := lab.RuntimeLang(); lang != "" {
+		var old []*probe.Unit
+		for i, u := range units {
+			if i%5 == 0 {
+				old = append(old, u)
+			}
+		}
+		if err := lab.CompileAtLang(old, lang); err != nil {
+			return err
+		}
+		for _, u := range old {
+			if u.LangTried {
+				c.Add("units_compiled_again_at_"+lang, 1)
+			}
+			if u.LangErr != "" {
+				files := unitFiles(u)
+				files["compile-errors-"+lang+".txt"] = u.LangErr
+				c.Violate("does-not-compile-at-the-language-version-of-the-runtime:"+errClass(u.LangErr), fmt.Sprintf("unit %s: the generated code compiles in this module but not with -lang=%s, the language version the pinned gontainer-helpers module declares in its go.mod (a consumer module need not declare more than the runtime it uses):\n%s", u.ID, lang, firstLines(u.LangErr, 8)), files)
+			}
+		}
+	}
 	return lab.RunProbes(units, 150, race)
 }
 
@@ -190,6 +213,7 @@ func hasTaggedArg(conf *cfg.Config) bool {
 // behaviourUnits runs prepared units and judges them against the reference container.
 func behaviourUnits(c *Ctx, lab *probe.Lab, units []*probe.Unit, nontrivial func(conf *cfg.Config) bool, skipTainted bool) error {
 	sugarUnits(c, units)
+	priorUnits(c, units)
 	if err := runUnits(c, lab, units, false); err != nil {
 		return err
 	}
@@ -238,6 +262,42 @@ func behaviourUnits(c *Ctx, lab *probe.Lab, units []*probe.Unit, nontrivial func
 		}
 	}
 	return nil
+}
+
+var samePkgName = strings.NewReplacer("fixt/deep/pa", "fixt/pa", "fixt/pa", "fixt/deep/pa", "aaa.test/lib", "zzz.test/lib", "zzz.test/lib", "aaa.test/lib")
+
+// priorUnits: for a sixth of the units the output path already holds what the tool generated a moment ago - for a small unrelated
+// configuration, or for the unit's own files with every import path replaced by that of the other fixture package with the same last
+// element (the generated code differs in the import block only). The inputs of the run that counts are older than that file. The run
+// that counts is judged as always: verdict, compilation, behaviour of the container.
+func priorUnits(c *Ctx, units []*probe.Unit) {
+	for i, u := range units {
+		if u.Prior != nil || u.Previous != "" || u.Stub {
+			continue
+		}
+		switch i % 12 {
+		case 4:
+			u.Prior = &probe.Prior{Files: []probe.File{{Name: "earlier.yaml", Content: cli.EarlierConfig}}, Patterns: []string{"earlier.yaml"}}
+			c.Add("units_generated_over_an_earlier_output:unrelated", 1)
+		case 7:
+			p := &probe.Prior{Patterns: u.Patterns, Flags: u.Flags}
+			changed := false
+			for _, f := range u.Files {
+				t := samePkgName.Replace(f.Content)
+				changed = changed || t != f.Content
+				p.Files = append(p.Files, probe.File{Name: f.Name, Content: t})
+			}
+			if p.Patterns == nil {
+				for _, f := range u.Files {
+					p.Patterns = append(p.Patterns, f.Name)
+				}
+			}
+			if changed {
+				u.Prior = p
+				c.Add("units_generated_over_an_earlier_output:same-configuration-other-packages", 1)
+			}
+		}
+	}
 }
 
 func firstWords(s string, n int) string {
